@@ -127,6 +127,7 @@ class E3Check(Check):
         "compute_umeyama_contiguous", "compute_lie", "compute_plot",
         "time_range_absolute_bounds", "compute_plot_optional_args",
         "built_from_all_three", "align_checked_against_independent_umeyama",
+        "built_from_pose_ndarray", "merge_with_shared_stamps",
     )
 
     def setup_worker(self):
@@ -269,6 +270,27 @@ class E3Check(Check):
                                               "mix": self.mix,
                                               "objects": [A, B],
                                               "steps": steps})
+        # two windows of one trajectory that share their boundary stamp, merged
+        for seed in seeds:
+            A = {"ctor": "xyzquat", "stamped": True, "n": 9,
+                 "data_seed": seed + 9, "profile": dict(prof, gap=0.0)}
+            for k in (2, 4, 6):
+                for pre in (None, "poses_se3"):
+                    steps = [{"op": "deepcopy", "uid": "d0", "obj": "o0"},
+                             {"op": "deepcopy", "uid": "d1", "obj": "o0"},
+                             {"op": "time_range", "uid": "t0", "obj": "d0.0",
+                              "lo": None, "hi": None, "abs": [None, [k]]},
+                             {"op": "time_range", "uid": "t1", "obj": "d1.0",
+                              "lo": None, "hi": None, "abs": [[k], None]}]
+                    if pre:
+                        steps.append({"op": "read", "uid": "r0",
+                                      "obj": "d1.0", "view": pre})
+                    steps.append({"op": "merge", "uid": "mg",
+                                  "objs": ["d0.0", "d1.0"]})
+                    steps.append({"op": "read", "uid": "r1", "obj": "d1.0",
+                                  "view": "timestamps"})
+                    cases.append({"kind": "schema_windows", "mix": self.mix,
+                                  "objects": [A], "steps": steps})
         # results that carry trajectories: merge two of them, mutate the
         # merged result's trajectories by every mutator, inspect the inputs
         for seed in seeds:
